@@ -883,13 +883,13 @@ class FLAC(mutagen.FileType):
 
         # Delete ID3v1
         if deleteid3:
-            try:
-                f.seek(-128, 2)
-            except IOError:
-                pass
-            else:
+            # it can only be part of the audio data following the metadata
+            # blocks; never look for it inside the blocks just written
+            filesize = get_size(f)
+            if filesize - 128 >= header + data_size:
+                f.seek(filesize - 128, 0)
                 if f.read(3) == b"TAG":
-                    f.seek(-128, 2)
+                    f.seek(filesize - 128, 0)
                     f.truncate()
 
     def __find_audio_offset(self, fileobj):
